@@ -753,6 +753,27 @@ def r_borrowed_r01_18(idx, r):
     r2_add_remove(idx, Only(r, ["Core.removeAssembly:remove-before-pooling"]))
 
 
+def r19_detached_copy_is_a_copy(idx, r):
+    """Composite.remove hands the removed child `spatialLocator.detachedCopy()`: every locator class answers with a NEW locator that belongs to no
+    grid.  An override that returns the locator itself leaves the removed child attached to the grid of its former parent."""
+    n = 0
+    for c in idx.all_classes():
+        if not c.fq.startswith("armi.reactor.grids.") or ".tests" in c.fq:
+            continue
+        f = c.methods.get("detachedCopy")
+        if f is None:
+            continue
+        for x in walk_local(f.node):
+            if isinstance(x, ast.Return):
+                n += 1
+                built = {s_.node.id for s_ in iter_stores(f.node) if s_.kind == "assign" and isinstance(s_.node, ast.Name) and isinstance(s_.value, ast.Call)}
+                fresh = isinstance(x.value, ast.Call) or (isinstance(x.value, ast.Name) and x.value.id in built)
+                r.require(x.value is not None and norm(x.value) != "self" and fresh, f"{c.name}.detachedCopy:returns-a-new-locator", f, node=x,
+                          msg=f"`{norm(x)}` is not a newly built locator: a removed child keeps a location on the grid of the parent it was taken from")
+    if n < 2:
+        raise AnchorMissing("detachedCopy implementations")
+
+
 def run(idx, chk):
     chk.explanation = (
         "C01: who may write Composite._children / .parent (frozen owners), pairing of parent/list/locator effects on every path of "
@@ -797,3 +818,5 @@ def run(idx, chk):
                  necessary="queries agree with a naive walk of the child list under the same filter")
     chk.run_rule("R01.18", "Core.removeAssembly takes the assembly out of the core before the pool adopts it (clause of R14.2): otherwise it has two parents", lambda r: r_borrowed_r01_18(idx, r), floor=1,
                  necessary="every object has at most one parent")
+    chk.run_rule("R01.19", "detachedCopy of every locator class builds a new locator", lambda r: r19_detached_copy_is_a_copy(idx, r), floor=2,
+                 necessary="a removed object keeps no location on the grid of its former parent")
